@@ -8,6 +8,8 @@ def install(spec: Spec):
     spec.field('__class__', 'any')
     spec.field('__name__', 'str')
     spec.injective_fstrings.add('{}.{}')
+    from pyvc import smt as _smt
+    _smt.INJECTIVE_TEMPLATES['{}.{}'] = 2
 
     spec.fn('helpers._calculate_semaphore_timeout', file=F, qual='_calculate_semaphore_timeout',
             params={'semaphore_timeout': 'opt[real]', 'timeout': 'real', 'semaphore_limit': 'int'}, returns='real',
